@@ -79,16 +79,31 @@ def confirm(sd, tests=True):
     return out
 
 
+def private_lean(dst):
+    """copy of /verif/lean (sources + build output; lake does not rebuild a copied project) for ONE scratch-tree run, so that a tree
+    whose kernels / formulas translate differently neither disturbs nor waits for the checks of /repo or of other scratch trees"""
+    import fcntl
+    src = os.path.join(VERIF, "lean")
+    with open(os.path.join(src, ".gen.lock"), "w") as g, open(os.path.join(src, ".lake.lock"), "w") as l:
+        fcntl.flock(g, fcntl.LOCK_SH)
+        fcntl.flock(l, fcntl.LOCK_EX)
+        r = sh(["cp", "-a", src, dst])
+    if r.returncode:
+        raise SystemExit("copy of the Lean project failed: " + r.stderr)
+    return dst
+
+
 def run(sd, props, tier="quick"):
     patch = os.path.join(sd, "patch.diff")
     wt = mkwt(patch)
     outdir = tempfile.mkdtemp(prefix="gsvout_", dir="/tmp")
     res = {}
     try:
+        lean = private_lean(os.path.join(outdir, "lean"))
         for p in props:
             t = time.time()
             r = sh([os.path.join(VERIF, "check"), p, "--tier", tier],
-                   env=dict(os.environ, GSV_REPO=wt, GSV_OUT=outdir), cwd=VERIF, timeout=7200)
+                   env=dict(os.environ, GSV_REPO=wt, GSV_OUT=outdir, GSV_LEAN=lean), cwd=VERIF, timeout=7200)
             lines = [l for l in r.stdout.split("\n") if l.startswith("VIOLATION") or l.startswith("KNOWN-FINDING")]
             vio = [l for l in lines if l.startswith("VIOLATION")]
             detail = ""
@@ -108,10 +123,6 @@ def run(sd, props, tier="quick"):
     finally:
         rmwt(wt)
         shutil.rmtree(outdir, ignore_errors=True)
-        if True:   # always: a run against a patched tree may have regenerated lean/GSV/Gen (kernels or formulas)
-            # the run regenerated lean/GSV/Gen from the patched kernels: restore the translation of /repo's own sources
-            sh([PY, "-c", "import sys; sys.path.insert(0, %r); import core; core.regenerate(core.Ctx('restore', 'quick', 0))"
-                % os.path.join(VERIF, "vlib")], env={k: v for k, v in os.environ.items() if k not in ("GSV_REPO", "GSV_OUT")}, cwd=VERIF)
     return res
 
 
